@@ -167,6 +167,14 @@ def gen_case(r, cid, focus=None):
     kinds_all = ['lin', 'lin', 'quad', 'quad', 'pow', 'pow', 'pow', 'min', 'max', 'abs', 'abs', 'div', 'div', 'ifthen', 'clin', 'clin',
                  'clin', 'cquad', 'and', 'or', 'not', 'impl', 'alldiff', 'count', 'nvar', 'nconst', 'tr', 'expa', 'loga', 'powf', 'eqbin']
     for k in range(nops):
+        if c.ops and r.chance(1, 10):
+            # the same constraint again: the converter must find it through its map and return the same result variable
+            j = r.below(len(c.ops))
+            c.ops.append(list(c.ops[j]))
+            c.kinds.append(c.ops[j][0])
+            old = refs[nv + j]
+            refs.append(('$%d' % (len(c.ops) - 1), old[1], old[2], None))
+            continue
         kind = focus if (focus and r.chance(2, 3)) else r.choice(kinds_all)
         small = [x for x in refs if x[1] <= 14]
         logical = [x for x in refs if x[2]]
@@ -516,7 +524,7 @@ def gen_e2e_model(r):
     for _ in range(nv):
         k = r.below(6)
         if k <= 2:
-            lo, hi = r.choice([(0, 5), (0, 4), (-3, 3), (1, 6), (-2, 4)])
+            lo, hi = r.choice([(0, 5), (0, 4), (-3, 3), (1, 6), (-2, 4), (-4, -1), (-5, 0)])
             m.var(lo, hi, True); grids.append([F(v) for v in range(lo, hi + 1)])
         elif k == 3:
             m.var(0, 1, True); grids.append([F(0), F(1)])
